@@ -51,6 +51,9 @@ pub struct E1<'c> {
     pub never: std::collections::BTreeSet<(usize, usize)>,
     pub oracles: Box<dyn crate::oracles::Oracle>,
     pub queries: u64,
+    /// a cycle / non-convergence panic happened in the current revision (its heads stay
+    /// poisoned until the next revision: requests involving them may see PropagatedPanic)
+    pub cycle_panicked_in_rev: bool,
 }
 
 pub fn expected_obs(ev: &mut Eval, prog: &Program, n: usize, arg: u32, deep: bool) -> Result<Obs, Abort> {
@@ -126,7 +129,7 @@ impl<'c> E1<'c> {
         fault::MASK.store(case.fault_mask, SeqCst);
         let db = SimDatabase::new(&case.prog, &world);
         let oracles = crate::oracles::for_case(case);
-        E1 { case, db: Some(db), world, out: RunOut::default(), step: 0, never: Default::default(), oracles, queries: 0 }
+        E1 { case, db: Some(db), world, out: RunOut::default(), step: 0, never: Default::default(), oracles, queries: 0, cycle_panicked_in_rev: false }
     }
 
     fn db(&self) -> &SimDatabase {
@@ -171,6 +174,7 @@ impl<'c> E1<'c> {
     }
 
     fn new_revision_note(&mut self) {
+        self.cycle_panicked_in_rev = false;
         self.out.revisions += 1;
     }
 
@@ -178,8 +182,24 @@ impl<'c> E1<'c> {
     fn do_query(&mut self, n: usize, arg: u32, deep: bool, via_clone: bool) {
         self.queries += 1;
         let prog = &self.case.prog;
-        let mut ev = Eval::new(prog, &self.world);
-        let exp = expected_obs(&mut ev, prog, n, arg, deep);
+        let exp: Result<Obs, Abort>;
+        // cyclic programs: outcome classes beyond "exact"
+        let mut either_cycle_panic = false;
+        let mut must_panic = false;
+        let mut bad_mode = false;
+        if prog.is_cyclic() {
+            let cr = crate::refcyc::CycRef::solve(prog, &self.world);
+            bad_mode = cr.bad_active(n);
+            either_cycle_panic = cr.panic_possible(n);
+            must_panic = either_cycle_panic && cr.scratch_panics(n) && self.queries == 1;
+            exp = if must_panic { Err(Abort::Cycle) } else { Ok(Obs { v: cr.vals[n], ts: vec![], vec: vec![] }) };
+            if bad_mode {
+                self.out.bump("bad_mode_requests");
+            }
+        } else {
+            let mut ev = Eval::new(prog, &self.world);
+            exp = expected_obs(&mut ev, prog, n, arg, deep);
+        }
         let got = if via_clone {
             let db2 = self.db().clone();
             let r = catch_unwind(AssertUnwindSafe(|| observe(&db2, n, arg, deep)));
@@ -191,50 +211,83 @@ impl<'c> E1<'c> {
         };
         let step = self.step;
         let mut info = crate::oracles::StepInfo::query(n, arg);
-        match (&exp, &got) {
-            (Ok(e), Ok(g)) => {
-                self.out.digest = hash_str(self.out.digest, &format!("{g:?}"));
-                if e != g {
-                    self.out.viol("value_mismatch", step, format!("node {n} arg {arg}: expected {e:?} got {g:?}"));
+        let got_pk = got.as_ref().err().map(|p| panic_kind(p));
+        if let Some(PK::Injected(..)) = got_pk {
+            self.out.digest = hash_str(self.out.digest, "injected");
+            self.out.bump("fault_panic_reached_caller");
+            info.injected = true;
+        } else if bad_mode {
+            // non-monotone cycle: a bounded panic or any value; never a hang (the run returns)
+            match (&got, &got_pk) {
+                (Ok(g), _) => {
+                    self.out.digest = hash_str(self.out.digest, &format!("{g:?}"));
+                    self.out.bump("bad_mode_converged");
+                    info.ok = true;
                 }
-                info.ok = true;
-            }
-            (Ok(e), Err(p)) => {
-                let pk = panic_kind(p);
-                self.out.digest = hash_str(self.out.digest, &format!("{pk:?}"));
-                match pk {
-                    PK::Injected(..) => {
-                        self.out.bump("fault_panic_reached_caller");
-                        info.injected = true;
-                    }
-                    other => self.out.viol("unexpected_panic", step, format!("node {n} arg {arg}: expected {e:?} got panic {other:?}")),
-                }
-            }
-            (Err(a), Ok(g)) => self.out.viol("missing_panic", step, format!("node {n}: expected abort {a:?} got {g:?}")),
-            (Err(a), Err(p)) => {
-                let pk = panic_kind(p);
-                self.out.digest = hash_str(self.out.digest, &format!("{pk:?}"));
-                let ok = match (a, &pk) {
-                    (_, PK::Injected(..)) => {
-                        info.injected = true;
-                        true
-                    }
-                    (Abort::SpecifyForeign, PK::Msg(m)) => m.contains("can only use `specify`") || m.contains("specify"),
-                    (Abort::SpecifyTwice, PK::Msg(m)) => m.contains("cannot call `specify` twice"),
-                    (Abort::Cycle, PK::Msg(m)) => m.contains("dependency graph cycle"),
-                    _ => false,
-                };
-                if ok {
-                    self.out.bump("expected_panic_seen");
+                (_, Some(PK::Msg(m))) if m.contains("too many cycle iterations") || (either_cycle_panic && m.contains("dependency graph cycle")) => {
+                    self.out.digest = hash_str(self.out.digest, "diverged");
+                    self.out.bump("nonconvergence_panic_seen");
+                    self.cycle_panicked_in_rev = true;
                     info.expected_panic = true;
-                } else {
-                    self.out.viol("wrong_panic", step, format!("node {n}: expected abort {a:?} got {pk:?}"));
+                }
+                (_, Some(PK::Cancelled(c))) if c == "PropagatedPanic" && self.cycle_panicked_in_rev => {
+                    self.out.digest = hash_str(self.out.digest, "poisoned");
+                    self.out.bump("poisoned_head_observed");
+                    info.expected_panic = true;
+                }
+                (_, pk) => self.out.viol("wrong_panic", step, format!("node {n}: non-converging cycle ended with {pk:?}")),
+            }
+        } else {
+            match (&exp, &got) {
+                (Ok(e), Ok(g)) => {
+                    self.out.digest = hash_str(self.out.digest, &format!("{g:?}"));
+                    if e != g {
+                        self.out.viol("value_mismatch", step, format!("node {n} arg {arg}: expected {e:?} got {g:?}"));
+                    }
+                    info.ok = true;
+                }
+                (Ok(e), Err(_)) => {
+                    let pk = got_pk.clone().unwrap();
+                    self.out.digest = hash_str(self.out.digest, &format!("{pk:?}"));
+                    match &pk {
+                        PK::Msg(m) if either_cycle_panic && m.contains("dependency graph cycle") => {
+                            self.out.bump("cycle_panic_seen");
+                            self.cycle_panicked_in_rev = true;
+                            info.expected_panic = true;
+                        }
+                        PK::Cancelled(c) if c == "PropagatedPanic" && either_cycle_panic && self.cycle_panicked_in_rev => {
+                            self.out.bump("poisoned_head_observed");
+                            info.expected_panic = true;
+                        }
+                        other => self.out.viol("unexpected_panic", step, format!("node {n} arg {arg}: expected {e:?} got panic {other:?}")),
+                    }
+                }
+                (Err(a), Ok(g)) => self.out.viol("missing_panic", step, format!("node {n}: expected abort {a:?} got {g:?}")),
+                (Err(a), Err(_)) => {
+                    let pk = got_pk.clone().unwrap();
+                    self.out.digest = hash_str(self.out.digest, &format!("{pk:?}"));
+                    let ok = match (a, &pk) {
+                        (Abort::SpecifyForeign, PK::Msg(m)) => m.contains("can only use `specify`"),
+                        (Abort::SpecifyTwice, PK::Msg(m)) => m.contains("cannot call `specify` twice"),
+                        (Abort::Cycle, PK::Msg(m)) => m.contains("dependency graph cycle"),
+                        _ => false,
+                    };
+                    if ok {
+                        self.out.bump("expected_panic_seen");
+                        if *a == Abort::Cycle {
+                            self.out.bump("cycle_panic_seen");
+                            self.cycle_panicked_in_rev = true;
+                        }
+                        info.expected_panic = true;
+                    } else {
+                        self.out.viol("wrong_panic", step, format!("node {n}: expected abort {a:?} got {pk:?}"));
+                    }
                 }
             }
         }
         // fresh-database cross-check (second, literal reading of "from scratch")
         let fe = self.case.knobs.fresh_every;
-        if fe != 0 && self.queries % fe as u64 == 0 && exp.is_ok() && got.is_ok() && self.case.panic_at.is_none() {
+        if fe != 0 && self.queries % fe as u64 == 0 && exp.is_ok() && got.is_ok() && self.case.panic_at.is_none() && !bad_mode && !either_cycle_panic {
             let evs = self.db().shared.take_log();
             self.digest_events(&evs);
             let saved = evs;
